@@ -31,6 +31,10 @@ def c12(res, st, std_coq, lexer_inputs):
     total, mism, fails = 0, [], []
     r = vlib.lex_exhaustive(gens.LEX_ALPHABET, n5, "p", b"", "fn:split", "c12")
     total += r["n"]; mism += r["mismatches"]; fails += r["fails"]; multi_exh = r["two_records"]
+    # the same alphabet after a comment opener (star runs of either parity before the closer), a path dot and a number with exponent
+    for pre in (b"/*", b"a;/*", b"a.", b"1e"):
+        r = vlib.lex_exhaustive(gens.LEX_ALPHABET, 4 if res.tier == "quick" else 5, "p", pre, "fn:split", "c12")
+        total += r["n"]; mism += r["mismatches"]; fails += r["fails"]; multi_exh += r["two_records"]
     ins = lexer_inputs(rnd, res.tier, "C12") + joined_statements(rnd, 1500 if res.tier == "quick" else 30000)
     inp = ("\n".join(hexs(x) for x in ins) + "\n").encode()
     g = vlib._run_out([vlib.HARNESS, "split-cases"], inp)
@@ -45,6 +49,12 @@ def c12(res, st, std_coq, lexer_inputs):
                       {"kind": "split-c12", "input_hex": h, "why": why})
     failed = set(h for (h, _) in fails)
     rest = [t for t in mism if t[0] not in failed]
+    # the model satisfies C12 for every input (theorems) relative to the reference lexer, which is the lexical specification (C14): an
+    # input on which SplitRawStatements answers differently is an input on which it fails where there is no lexical error, succeeds where
+    # there is one, or cuts elsewhere than at the top-level ';' tokens
+    for (h, x, y) in rest[:3]:
+        res.violation("SplitRawStatements differs from the splitter proved correct against the lexical specification",
+                      {"kind": "split-c12-model", "input_hex": h.split()[-1] if " " in h else h, "go": x[:400], "model": y[:400]})
     res.obligation("correspondence split model: SplitRawStatements == extracted Coq model on %d strings" % (total + len(ins)),
                    not rest, "\n".join("%s\n  go:    %s\n  model: %s" % t for t in rest[:5]))
     multi = len(set(l for l in g if l.count(",") >= 4))
